@@ -950,10 +950,7 @@ def hostile_phase(ctx, svc):
                             'body': (body[:600] if body is not None else None)},
                 'replay_request': {'method': method, 'path': path, 'content_type': ctype, 'body_b64': base64.b64encode(body.encode('utf-8')).decode() if body is not None else None}}
         shown = '%s %s%s' % (method, path[:160], (' body %r' % body[:160]) if body is not None else '')
-        if got[0] == 'transport' and '\x00' in t and placement.startswith(('tck: lexical form of xsd:decimal', 'tck: lexical form of xsd:double')) and ctx.known('number-text-with-nul', case):
-            # listed finding, claimed for its own input class and symptom only: a TCK number text holding U+0000, no response at all
-            hp['(listed finding number-text-with-nul)'] = hp.get('(listed finding number-text-with-nul)', 0) + 1
-            return None
+        # (a TCK number text holding U+0000 used to get no response at all: fixed in /repo 290959d, now an ordinary case)
         bad = hostile_verdict(resp, got, t, expect)
         if bad:
             ctx.violation('%s (text: %s) - request %s %s' % (placement, label, shown, bad), case, impl=str(resp)[:600])
@@ -1386,7 +1383,7 @@ def replay(ctx, path):
 
 
 MANIFEST = dict(
-    technique='Coq proof (JSON rendering round trip through a strict RFC 8259 parser by induction over values; service = C17 workspace state machine; TCK DTO round trip) with correspondence against the live HTTP service',
-    text='Theorems (coq/Props/C18.v, closed under the global context): for every value built from null/boolean/number/string/list/context the rendered text is accepted by a strict RFC 8259 parser and decodes to the value (every string and key: quotation marks, reverse solidus, control and non-ASCII characters), other kinds are rendered as JSON strings; every answer of the service model is a well-formed document with failures in the errors member; the endpoints behave as the same sequence of C17 workspace operations (replace = remove same namespace/name then add, always succeeds), rejected requests leave the state unchanged and do not disturb the requests that follow; TCK DTO conversion round-trips. The models are tied to the code by running Value::jsonify in process and the real service (start_server of the working tree, loopback) on generated values, request sequences and faults; every body is parsed strictly and compared with the model answer; failing requests to every endpoint carry hostile text (quotation mark, reverse solidus, control characters, U+2028, non-BMP, escape look-alikes, very long text) in every client-controlled part and must still be answered by a well-formed document with an errors member.',
+    technique='Coq proof (JSON rendering round trip through a strict RFC 8259 parser by induction over values; the handler model refines a specification stated as a relation over the abstract workspace of C17 and response classes; TCK round trip on the wire) with correspondence against the live HTTP service',
+    text='Theorems (coq/Props/C18.v, closed under the global context): for every value built from null/boolean/number/string/list/context the rendered text is accepted by a strict RFC 8259 parser and decodes to the value (every string and key: quotation marks, reverse solidus, control and non-ASCII characters), other kinds are rendered as JSON strings; the SPECIFICATION of the service (coq/C18/Spec.v) is a relation between a request, the abstract workspace of C17 (a set of stored documents and a served relation, given by predicates) before and after it, and the CLASS of the answer (which member is present: data or errors; what the data denotes: the namespace and name of the stored document, a status, the value computed by the document that is served) - written without the handler model; C18_serve_refines_spec: for every request sequence the answers of the handler model have the classes, and its workspace read through the abstraction function is the abstract workspace, that the specification prescribes (by induction over the sequence with the refinement of C17), and the specification is deterministic (C18_serve_refines_spec_unique); from the specification: errors leave the workspace unchanged, errors are answered exactly to a request that asks for no operation, an add whose namespace or name is taken, an evaluation of a name that is not served (C18_spec_errors_iff), such requests do not disturb the requests that follow (C18_spec_faults_do_not_disturb), replace substitutes every stored document of that namespace or name and always succeeds; C18_answers_reflect_workspace: every answer body to every request sequence parses strictly to an object with exactly the member its class prescribes and the data of an evaluation decodes to the value of the SERVED document. The earlier statement C18_service_refines_workspace (handler model = C17 implementation-model state machine; serve_by_op is the handler table in three pieces) and the fault theorems over it are kept as lemmas about the handler model. TCK: C18_tck_roundtrip is stated with its two premises visible (the lexical forms of the leaves read back; component names are FEEL names); C18_tck_roundtrip_concrete discharges them for the leaf readers of the model: strings as they are, numbers through the strict number reader (C18_tck_number_leaf_c07: the text C07 proves Display writes for a decimal128 datum is such a number text, it is read back to the same digits and by the C07 reader to an equal number), booleans; temporal leaves are kept as their TEXT and names are kept as they are (not transliterations: dates / durations are the subject of C14, the FEEL name parser is not modelled); C18_tck_success_body: the success body of /tck/evaluate is a well-formed document {data:{value:ValueDto}} with all three members of every ValueDto written; C18_tck_wire_roundtrip: that body parsed strictly, read back as a DTO and converted as the service converts its inputs is the value (strings through the JSON escapes). The models are tied to the code by running Value::jsonify in process and the real service (start_server of the working tree, loopback) on generated values, request sequences and faults; every body is parsed strictly and compared with the model answer; failing requests to every endpoint carry hostile text (quotation mark, reverse solidus, control characters, U+2028, non-BMP, escape look-alikes, very long text) in every client-controlled part and must still be answered by a well-formed document with an errors member.',
     note='Partial for the transport: actix-web, serde_json, TCP and worker threads are exercised (liveness probe after every fault), not modelled. Trusted: Coq kernel + vm_compute, hand-written models of values.rs/context.rs/strings.rs/server.rs/dto.rs (correspondence-checked), the Python HTTP client and strict parser (cross-checked against the Coq parser). Number and temporal lexical forms are leaves here (C07/C14).',
     category='proof')
